@@ -90,6 +90,10 @@ func parseRecord(r []byte) (Record, error) {
 			// internal types. Should not happen.
 			return nil, errInternal
 		default:
+			if c < 0 {
+				// serial types are non-negative; a 9-byte varint with the top bit set is corrupt
+				return res, ErrCorrupted
+			}
 			if c&1 == 0 {
 				// even, blob
 				l := (c - 12) / 2
